@@ -58,7 +58,7 @@ def generate(rng, tier):
     A = lambda op, args: cases.append((op, [str(a) for a in args]))
 
     # ---------------------------------------------------------------- hashes
-    top = 300 if thorough else 130
+    top = 300 if thorough else 136
     for h in HASHES:
         for n in range(0, top + 1):
             A("hash." + h, [data(rng, n)])
@@ -77,7 +77,7 @@ def generate(rng, tier):
     if thorough:
         keylens = list(range(0, 201))
     else:
-        keylens = [0, 1, 2, 16, 20, 32, 33, 55, 56, 63, 64, 65, 66, 80, 100, 111, 112, 119, 120, 127, 128, 129, 130, 131, 150, 199, 200]
+        keylens = sorted(set([0, 1, 2, 16, 20, 32, 33, 100, 111, 112, 150, 199, 200] + list(range(54, 74)) + list(range(118, 138))))
     for h in HASHES:
         for kl in keylens:
             ml = rng.choice([0, 1, 8, 28, 50, 55, 56, 63, 64, 65, 100, 111, 112, 128, 152, rng.randrange(0, 200)])
@@ -123,7 +123,7 @@ def generate(rng, tier):
         for L in lens:
             A("kdf.pbkdf2", [data(rng, rng.randrange(0, 40)), data(rng, rng.randrange(0, 40)), algo, rng.choice([1, 1, 2]), L])
         # iteration counts 1..20, short outputs
-        for c in (range(1, 21) if thorough else [1, 2, 3, 4, 5, 7, 10, 13, 16, 19, 20]):
+        for c in range(1, 21):
             L = rng.choice([1, hl - 1, hl, hl + 1, 2 * hl]) if c <= 10 else rng.choice([1, hl - 1, hl])
             A("kdf.pbkdf2", [data(rng, rng.randrange(0, 30)), data(rng, rng.randrange(0, 30)), algo, c, L])
         # password longer than the HMAC block (hashed first), at the block size, salt longer than a block
